@@ -12,8 +12,8 @@ import (
 
 func init() {
 	register(&Prop{
-		ID:    "C19",
-		Title: "The electric model keeps its documented mode invariants",
+		ID:          "C19",
+		Title:       "The electric model keeps its documented mode invariants",
 		Explanation: "R19.1 every write of the modes collection and of the active mode (Collection.Add/Update/Delete, Value.Set on those two fields) happens with Model.mu held exclusively, every read of them that an invariant depends on (findMode, normalMode, the active id in deleteMode) with mu held, lock sets propagated from the exported methods to the unexported helpers; no function outside Model's methods touches the two resources. R19.2 every path to modes.Add / modes.Update either passes the false edge of a test of the written mode's Normal field or consults normalMode() and tests its result before the write. R19.3 modes.Delete is guarded by the comparison of the id with the active mode's id (ErrDeleteActiveMode otherwise) and activeMode.Set by a successful findMode. R19.4 ClearActiveMode goes through ChangeToNormalMode = normalMode() then changeActiveMode(normal id); the InterceptAfter of changeActiveMode stamps StartTime from the model clock exactly when the id changes. R19.5 deleteMode does not turn Collection.Delete's (nil, nil) - produced only under allow-missing - into an error, and reports a missing mode otherwise. Does NOT decide the invariants under all interleavings beyond serialisation, nor the interplay with the initial dummy active mode.",
 		Assumptions: []string{"resource.Collection/Value semantics (C01/C02)"},
 		Run:         runC19,
@@ -269,39 +269,41 @@ func r193(c *an.Ctx) {
 				call := in.(*ssa.Call)
 				good := false
 				for _, e := range an.GuardingEdges(in) {
-					bo, isBO := e.If.Cond.(*ssa.BinOp)
-					if !isBO || (bo.Op != token.EQL && bo.Op != token.NEQ) {
-						continue
-					}
-					var idSide, activeSide ssa.Value
-					for _, pair := range [][2]ssa.Value{{bo.X, bo.Y}, {bo.Y, bo.X}} {
-						if _, _, fld, isF := an.FieldOf(pair[1]); isF && fld == "Id" {
-							idSide, activeSide = pair[0], pair[1]
+					for _, fact := range an.BinOpFacts(e) {
+						bo := fact.Op
+						if bo.Op != token.EQL && bo.Op != token.NEQ {
+							continue
 						}
-					}
-					if idSide == nil || idSide != call.Call.Args[1] {
-						continue
-					}
-					// activeSide derives from activeMode.Get()
-					fromActive := false
-					base, _, _, _ := an.FieldOf(activeSide)
-					for _, s := range an.Sources(base) {
-						if g, isCall := s.(*ssa.Call); isCall {
-							if af, am, okr := modelResourceCall(g); okr && af == "activeMode" && am == "Get" {
-								fromActive = true
+						var idSide, activeSide ssa.Value
+						for _, pair := range [][2]ssa.Value{{bo.X, bo.Y}, {bo.Y, bo.X}} {
+							if _, _, fld, isF := an.FieldOf(pair[1]); isF && fld == "Id" {
+								idSide, activeSide = pair[0], pair[1]
 							}
 						}
-					}
-					differs := (bo.Op == token.EQL && !e.Branch) || (bo.Op == token.NEQ && e.Branch)
-					if fromActive && differs {
-						// the other edge returns the sentinel
-						other := an.CondEdge{If: e.If, Branch: !e.Branch}
-						for _, r := range an.Returns(fn) {
-							if an.EdgeGuards(other, r) {
-								for _, v := range an.ValuesAt(r.Results[len(r.Results)-1]) {
-									if u, isU := v.(*ssa.UnOp); isU {
-										if g, isG := u.X.(*ssa.Global); isG && g.Name() == "ErrDeleteActiveMode" {
-											good = true
+						if idSide == nil || !an.SameValues(idSide, call.Call.Args[1]) {
+							continue
+						}
+						// activeSide derives from activeMode.Get()
+						fromActive := false
+						base, _, _, _ := an.FieldOf(activeSide)
+						for _, s := range an.Sources(base) {
+							if g, isCall := s.(*ssa.Call); isCall {
+								if af, am, okr := modelResourceCall(g); okr && af == "activeMode" && am == "Get" {
+									fromActive = true
+								}
+							}
+						}
+						differs := (bo.Op == token.EQL && !fact.Holds) || (bo.Op == token.NEQ && fact.Holds)
+						if fromActive && differs {
+							// the other edge returns the sentinel
+							other := an.CondEdge{If: e.If, Branch: !e.Branch}
+							for _, r := range an.Returns(fn) {
+								if an.EdgeGuards(other, r) {
+									for _, v := range an.ValuesAt(r.Results[len(r.Results)-1]) {
+										if u, isU := v.(*ssa.UnOp); isU {
+											if g, isG := u.X.(*ssa.Global); isG && g.Name() == "ErrDeleteActiveMode" {
+												good = true
+											}
 										}
 									}
 								}
